@@ -48,10 +48,8 @@ def main():
             for p, res in ex.map(one, a.props.split(",")):
                 out["checks"][p] = res
         if a.ctest:
-            r = sh("ctest --test-dir /repo/_build -j16 --timeout 900 2>&1 | tail -15")
-            m = re.search(r"(\d+)% tests passed, (\d+) tests failed out of (\d+)", r.stdout)
-            out["ctest"] = {"summary": m.group(0) if m else r.stdout[-600:],
-                            "failed": [l.strip() for l in r.stdout.splitlines() if "Failed" in l or "***" in l][:10]}
+            r = sh("python3 %s/tool/baseline_ctest.py" % VERIF)
+            out["ctest"] = {"exit": r.returncode, "summary": r.stdout.strip().splitlines()}
     finally:
         sh("git -C %s checkout -- ." % REPO)
     fired = {p: v for p, v in out["checks"].items() if v["exit"] != 0}
